@@ -40,7 +40,6 @@ from typing import (
 )
 
 import z3
-from returns.converters import result_to_maybe
 from returns.functions import compose
 from returns.maybe import Maybe, Some, Nothing
 from returns.pipeline import flow
@@ -110,7 +109,6 @@ def evaluate_z3_expression(
                     evaluate_z3_re_plus,
                     evaluate_z3_re_option,
                     evaluate_z3_re_union,
-                    evaluate_z3_re_comp,
                     evaluate_z3_re_full_set,
                     # Boolean Combinations
                     evaluate_z3_not,
@@ -314,41 +312,6 @@ def evaluate_z3_re_union(
 
     return Some(
         construct_result(lambda args: f"(({args[0]})|({args[1]}))", children_results)
-    )
-
-
-def evaluate_z3_re_comp(expr: z3.ExprRef, _) -> Maybe[Z3EvalResult]:
-    if expr.decl().name() != "re.comp":
-        return Nothing
-
-    # The argument must be a union of strings or a range.
-    child = expr.children()[0]
-    if not (
-        child.decl().kind() == z3.Z3_OP_RE_UNION
-        and all(
-            grandchild.decl().kind() == z3.Z3_OP_SEQ_TO_RE
-            for grandchild in child.children()
-        )
-        or child.decl().name() == "re.range"
-    ):
-        return Nothing
-
-    maybe_children_result: Maybe[Tuple[Z3EvalResult]] = result_to_maybe(
-        reduce(
-            lambda acc, maybe_child_result: acc.map(
-                lambda some_acc: maybe_child_result.map(
-                    lambda child_result: some_acc + (child_result,)
-                )
-            ),
-            map(evaluate_z3_expression, child.children()),
-            Success(()),
-        )
-    )
-
-    return maybe_children_result.map(
-        lambda children_result: construct_result(
-            lambda args: "[^" + "".join(args) + "]", children_result
-        )
     )
 
 
